@@ -646,7 +646,8 @@ class BuiltinMixin:
         if rest is None:
             return out
         x, rest = self.split(rest, V.is_obj(v))
-        if x is not None:
+        if x is not None and not self.impossible(x, z3.BoolVal(True)):
             raise Unsupported('iteration over an object')
-        out.extend(exc(rest, 'TypeError'))
+        if rest is not None:
+            out.extend(exc(rest, 'TypeError'))
         return out
